@@ -118,8 +118,9 @@ def check_transparency(ck, lib, gm, seeds, worst, eager_samples):
     ck.discard('compile'); return
   except gx.Unsupported:
     ck.discard('unsupported'); return
-  if gx.known_mjx_crash(c, gm):
-    ck.discard('finding:elliptic-without-frictional-contact'); return
+  crash = gx.known_mjx_crash(c, gm)
+  if crash:
+    ck.discard(crash); return
   states = []
   for k, sd in enumerate(seeds):
     s = gx.make_state(lib, c.tm, sd, settle=(0 if k % 2 == 0 else 10 + 9 * k))
